@@ -98,25 +98,9 @@ CHECKS = {
              "to /repo by a sampled correspondence check whose generator distribution is in the evidence; Cereal, 0-D views and "
              "views of re-based arrays not exercised; no 64-bit overflow"),
     "C15": dict(
-        text="Coq, all ranks/masks/sizes/strides (induction over the mask): C15_plan_denotes_view_dft - the dims/howmany_dims handed "
-             "to fftw_plan_guru64_dft visit exactly the index set of the views, split by the mask, each index once, at the views' "
-             "own addresses; C15_output_frame - written locations = output view, read locations = input view; C15_call_shape - one "
-             "plan (view bases, requested sign, FFTW_ESTIMATE|FFTW_PRESERVE_INPUT), one execute on the same pointers, one destroy. "
-             "Relative to an explicit FFTW contract (premise guru_contract, shown satisfiable): C15_equals_direct_dft - output view "
-             "= direct unnormalised DFT along exactly the masked dimensions with the requested sign, batches independent, nothing "
-             "outside the output view modified, out-of-place and in-place; C15_input_unchanged; C15_forward_backward (premise: 1-D "
-             "DFT inversion at the transformed sizes); C15_lazy_range (the lazy fft::dft range form equals dft()). Explicit plan "
-             "objects over an empty transformed dimension stay outside (asserted precondition; C15_plan_object_needs_nonempty_"
-             "transform). Tie: every generated case (all 2^D masks per layout pair, D 1..4, padded/strided/rotated/transposed/"
-             "reversed/shared-root/in-place layouts, 7 front ends) compares the interposed fftw_plan_guru64_dft/execute/destroy "
-             "arguments, view shapes and changed output cells with the extracted model, and checks the result against an O(N^2) "
-             "long-double DFT, input copy, frame, guard cells and forward-backward.",
-        design_ref="5/C15", technique="Coq proof (permutation of nested-loop index sets by induction over the mask; refinement of the "
-                                      "plan to the view index map; ring-generic DFT algebra) + extracted-model vs library differential "
-                                      "with FFTW symbol interposition and an independent O(N^2) DFT monitor",
-        note="Coq 8.16.1 kernel; property theorems print 'Closed under the global context'; the DFT itself is FFTW's: guru_contract "
-             "(trusted reading of the FFTW manual, incl. PRESERVE_INPUT and in-place is==os) and tw_orthogonal_at are premises, "
-             "sampled by the O(N^2) monitor, not proved; zero-based views (index bases: C19); no 64-bit overflow; FFTW 3.3.10 / g++ 12"),
+        text="Coq, all ranks/masks/sizes/strides and ANY index bases (induction over the mask; views with extensions not starting at 0 through their zero-based twins): C15_plan_denotes_view_dft - the dims/howmany_dims handed to fftw_plan_guru64_dft visit exactly the index set of the views, split by the mask, each index once, at the views' own addresses counted from their first elements; C15_output_frame - written locations = output view, read locations = input view; C15_reachable_views - views reached by sliced/blocked/strided/rotated/transposed/reversed/reindexed from arrays over any extensions are in the domain; C15_base_is_first_element + C15_call_pointers - the pointers of BOTH the planning call and the execute call are the addresses of the views' first elements (base(), not origin()); C15_call_shape - no FFTW call for an empty view, else one plan, one execute on the planned pointers, one destroy; C15_planner_flags - for every size and every flags argument the plan is created with FFTW_ESTIMATE|FFTW_PRESERVE_INPUT, which by FFTW's documented contract (a definition) leaves the arrays alone at planning time; C15_planner_flag_needed - with a measuring flag set the same calls clear the arrays (2-point witness). Relative to explicit FFTW contracts for executing (guru_contract) and for creating (plan_contract) a plan, both shown satisfiable: C15_equals_direct_dft - for all extents >= 0 and equal extensions the output view = direct unnormalised DFT along exactly the masked dimensions with the requested sign, batches independent, nothing outside the output view modified, out-of-place and in-place; C15_input_unchanged; C15_forward_backward (premise: 1-D DFT inversion at the transformed sizes); C15_lazy_range(_arrays/_equals_direct_dft) - the lazy fft::dft range form makes the same calls for arrays of every rank over any extensions.  Only explicit plan objects keep FFTW's own domain (C15_plan_object; necessity shown).  Tie: every generated case (all 2^D masks per layout pair, D 1..4, extents 0..6 plus transforms above 2^16 and above 2^20 elements, padded/strided/rotated/transposed/reversed/shared-root/in-place layouts, half of them with non-zero index bases from based roots, blocked and reindexed views, 8 front ends incl. plan objects and the lazy range) compares the interposed fftw_plan_guru64_dft arguments (tensors, BOTH pointers, sign, semantic planner flags), the fftw_execute_dft pointers, the call order, view shapes with first indices and the set of changed output cells with the extracted model, and checks the library's result against an O(N^2) long-double DFT, input copy, frame, guard cells, forward-backward, the planner flags by FFTW's documented contract and the arrays bitwise across every planning call.",
+        design_ref="5/C15", technique='Coq proof (permutation of nested-loop index sets by induction over the mask; refinement of the plan to the view index map; transfer to any index base through the zero-based twin; ring-generic DFT algebra; planning as a memory effect under a flag contract) + extracted-model vs library differential with FFTW symbol interposition (plan, execute, destroy and the other planner entry points; arrays compared across the planning call) and an independent O(N^2) DFT monitor',
+        note="Coq 8.16.1 kernel; all 18 property theorems print 'Closed under the global context'; the DFT itself is FFTW's: guru_contract (trusted reading of the FFTW manual, incl. PRESERVE_INPUT and in-place is==os), plan_contract (manual 4.3.2: FFTW_ESTIMATE / FFTW_WISDOM_ONLY plans do not write to the arrays) and tw_orthogonal_at are premises of the theorems, sampled by the O(N^2) monitor and by the interposer's before/after comparison of every planning call, not proved; hand-written Gallina model tied to /repo by a correspondence check (ExtrOcamlBasic extraction, OCaml driver, C++ harness + interposer TU compiled against /repo/include in the run; thorough tier also ASan/UBSan and a vm_compute cross-check of the extracted model); the tie is a sample whose generator distribution and size classes are in the evidence (largest transform ~1.6e6 elements; above 20000 elements the changed-cell set is compared by digest, above 300000 the model side of the digest is a native loop over the extracted plan's tensors; the O(N^2) reference is sampled at 64 output elements when N*Nt > 2e7); equal extensions of in and out (the adaptor asserts it); no 64-bit overflow; FFTW 3.3.10 / g++ 12 as installed; two defects found by this package were fixed in /repo (c24dd02, a7e1e64) and are regression cases in corpus/C15, as are the inputs of seeds s5 / s6"),
     "C18": dict(
         text="Theorems C18_message_is_elements, C18_reachable_view, C18_transfer, C18_transfer_reachable, C18_types_freed_once, "
              "C18_create_subarray, C18_data(+_strided_refuted/_partial) (Coq, all ranks >= 1, all sizes incl. 0 and 1, all strides, "
